@@ -3,8 +3,9 @@
    matrix_sparse_template.in, WHOLE matrices only (views are C10's subject).
    All statements quantify over ALL histories / all matrices, no bounds. *)
 From Coq Require Import ZArith List Bool Lia Sorted.
-From ADV Require Import C11.Model C11.Spec C11.ProofsMap C11.ProofsIter C11.ProofsInv C11.ProofsRef
-                        C11.ModelMat C11.ProofsMatSpec C11.ProofsMat C11.ProofsMatRef.
+From ADV Require Import C11.Model C11.Spec C11.Dense C11.ProofsMap C11.ProofsIter C11.ProofsInv C11.ProofsRef
+                        C11.ModelMat C11.ProofsMatSpec C11.ProofsMat C11.ProofsMatRef
+                        C11.ProofsMatDense C11.ProofsMatDense2 C11.ProofsMatDense3.
 Import ListNotations.
 Open Scope Z_scope.
 
@@ -74,18 +75,19 @@ Theorem mat_dims_T : forall m m', MInv m -> mtrans m = Some m' -> MInv m' /\ mdi
 Proof. exact mtrans_MInv. Qed.
 
 (* 3. refinement to the plain dense matrix (list of rows), single step.
-      PARTIAL: proved for At(i,j).Set(x) (needs Wf: cells allocated, no cell twice
-      in `values`) and Swap(i1,j1,i2,j2), plus totality of both on in-range
-      arguments.  NOT proved (covered by the correspondence run and the
-      dense-shadow oracle `mathunt` only): the corresponding equations for Reset
-      (all zero), SetIdentity (didentity rows cols, incl. non-square), T()
-      (mget (mabs h (T m)) j i = mget (mabs h m) i j), Set (mabs a = mabs b resp.
-      the dense operand), Clone (mabs equal, cells fresh), Map (element-wise),
-      SwapRows/SwapColumns/Tip; the preservation of Wf along histories
-      (C11/ProofsWf.v of the vector part was not available) and therefore the
-      whole-history statement mabs (mrun ops) = dense_run ops.  Termination of
-      Tip's cycle following within the model's fuel is not proved either (the
-      correspondence would show K_FUEL). *)
+      PARTIAL (this theorem: At(i,j).Set(x) and Swap, with totality on in-range
+      arguments).  Proved in full below (3a-3e): Reset, SetIdentity (incl.
+      non-square), Clone, T(), Set from a dense source.  NOT proved (covered by the correspondence run and
+      the dense-shadow oracle `mathunt` only): the closed forms for Map/MapSet
+      (only the fold characterisation map_list_spec: peek = mp_fun ...; missing:
+      NoDup of the row-major position list), Set with a SPARSE source (its reads
+      depend on the heap during loop 1; the dense source is 3e below; lifting 3e
+      through the world-level wrapper `mset` is
+      missing), SwapRows/SwapColumns/Tip, the constructor; the step-level theorem
+      over worlds (frame of the other matrices under a `safe`-style premise: the
+      per-operation MPost below provides the heap frame and the cell inclusion it
+      needs) and therefore the whole-history statement.  Termination of Tip's
+      cycle following within the model's fuel is not proved either. *)
 Theorem mat_refinement_single_step_partial :
   (forall h m i j x h' m' l i' j',
      MInv m -> Wf h (mv m) -> mat_at h m i j = Some (h', m', l) -> pos_ok m i' j' ->
@@ -98,3 +100,59 @@ Theorem mat_refinement_single_step_partial :
      else if (i =? i2) && (j =? j2) then mget (mabs h m) i1 j1 else mget (mabs h m) i j) /\
   (forall m i1 j1 i2 j2, pos_ok m i1 j1 -> pos_ok m i2 j2 -> exists m', mswap m i1 j1 i2 j2 = Some m').
 Proof. exact (conj mset_at_refines (conj mat_at_in_range_ok (conj mswap_refines mswap_in_range_ok))). Qed.
+
+(* 3a-3d. dense refinement of whole operations on one well-formed matrix
+      (MInv m, Wf h (mv m)): the operation succeeds (never K_FUEL / K_PANIC), the
+      result stands for D (mabs h m), and MPost holds: MInv and Wf are kept,
+      dimensions unchanged, the heap only grows, cells outside the matrix keep
+      their value (frame) and the matrix holds only its old cells or fresh ones. *)
+(* Reset(): all zeros.  The matrix Reset runs through the matrix ITERATOR with
+   skip(): entries that are null when met are dropped, the others become stored zeros *)
+Theorem mat_reset_refines : forall h m,
+  MInv m -> Wf h (mv m) ->
+  exists h' m', mreset h m = Some (h', m', true) /\ mabs h' m' = dzero (mabs h m) /\ MPost h m h' m'.
+Proof. exact mreset_refines. Qed.
+(* SetIdentity(): the identity matrix, also for non-square matrices (both loops of fix bd36f8c) *)
+Theorem mat_set_identity_refines : forall h m,
+  MInv m -> Wf h (mv m) ->
+  exists h' m', mset_identity h m = Some (h', m', true) /\
+    mabs h' m' = didentity (mrows m) (mcols m) /\ MPost h m h' m'.
+Proof. exact mset_identity_refines. Qed.
+(* Clone(): same dense matrix, all cells fresh *)
+Theorem mat_clone_refines : forall h m,
+  MInv m -> Wf h (mv m) ->
+  let h' := fst (clone h (mv m)) in let m' := set_mv m (snd (clone h (mv m))) in
+  mabs h' m' = mabs h m /\ Wf h' (mv m') /\ MInv m' /\ (exists e, h' = h ++ e) /\
+  (forall l, In l (cells_of (mv m')) -> (length h <= l)%nat).
+Proof. exact mclone_refines. Qed.
+(* T(): total on coherent whole matrices, the result is the transposed dense matrix,
+   well-formed, and holds only cells of the receiver (it SHARES them: F-SPT-REF) *)
+Theorem mat_T_refines : forall h m,
+  MInv m -> Wf h (mv m) ->
+  exists m', mtrans m = Some m' /\ MInv m' /\ mdims m' = (mcols m, mrows m) /\
+    mabs h m' = dtrans (mrows m) (mcols m) (mabs h m) /\ Wf h (mv m') /\
+    (forall l, In l (cells_of (mv m')) -> In l (cells_of (mv m))).
+Proof. exact mtrans_refines. Qed.
+(* building blocks for the remaining operations: a list of AT(i,j).Set(x) writes (SetIdentity
+   loop 2, Set loop 2 with a dense source, the constructor) and Map's AT(i,j) sweep, as folds
+   over the element function; the iterator write loop (Set loop 1) *)
+Theorem mat_write_lists_partial :
+  (forall es h m h' m' ok, MInv m -> Wf h (mv m) -> set_list es h m = (h', m', ok) ->
+     (Forall (fun e => pos_ok m (fst (fst e)) (snd (fst e))) es -> ok = true) /\
+     (ok = true -> WrPost h m h' m' (wr_fun (mcols m) es (peek h (mv m))))) /\
+  (forall f ps h m h' m' ok, MInv m -> Wf h (mv m) -> map_list f ps h m = (h', m', ok) ->
+     (Forall (fun p => pos_ok m (fst p) (snd p)) ps -> ok = true) /\
+     (ok = true -> WrPost h m h' m' (mp_fun f (mcols m) ps (peek h (mv m))))).
+Proof. exact (conj set_list_spec map_list_spec). Qed.
+(* 3e. Set(b) with a dense source b of the receiver's dimensions: both loops of fix
+   bd36f8c succeed (loop 1 through the iterator writing b(i,j) to the existing entries,
+   loop 2 over the non-zero entries of b creating the missing ones) and the receiver
+   then stands for b *)
+Theorem mat_set_dense_refines : forall h m xs,
+  MInv m -> Wf h (mv m) ->
+  let r := mrows m in let c := mcols m in
+  exists h1 m1 h2 m2,
+    wr_all (fun _ _ i j => dense_at r c xs i j) h m = Some (h1, m1, true) /\
+    set_list (dense_entries r c xs) h1 m1 = (h2, m2, true) /\
+    mabs h2 m2 = ddense r c xs /\ MPost h m h2 m2.
+Proof. exact mset_dense_refines. Qed.
